@@ -163,7 +163,8 @@ def _mk_ee(lens, kw):
 @_reg('RayFan')
 def _mk_rayfan(lens, kw):
     from optiland.analysis import RayFan
-    return RayFan(lens, fields='all', wavelengths='all',
+    return RayFan(lens, fields=kw.get('fields', 'all'),
+                  wavelengths=kw.get('wavelengths', 'all'),
                   num_points=kw.get('n', 9))
 
 
@@ -196,7 +197,9 @@ def _mk_fc(lens, kw):
 @_reg('PupilAberration')
 def _mk_pa(lens, kw):
     from optiland.analysis import PupilAberration
-    return PupilAberration(lens, num_points=kw.get('n', 9))
+    return PupilAberration(lens, fields=kw.get('fields', 'all'),
+                           wavelengths=kw.get('wavelengths', 'all'),
+                           num_points=kw.get('n', 9))
 
 
 @_reg('RmsSpotSizeVsField')
@@ -226,7 +229,9 @@ def _mk_wf(lens, kw):
 @_reg('OPDFan')
 def _mk_opdfan(lens, kw):
     from optiland.wavefront import OPDFan
-    return OPDFan(lens, num_rays=kw.get('n', 9))
+    return OPDFan(lens, fields=kw.get('fields', 'all'),
+                  wavelengths=kw.get('wavelengths', 'all'),
+                  num_rays=kw.get('n', 9))
 
 
 @_reg('OPD')
@@ -344,6 +349,17 @@ def do_step(lens, slots, st):
             elif c == 'new':
                 kw = dict(st.get('kw', {}))
                 dobj = None
+                # caller-owned lists (fields as (Hx, Hy) tuples, wavelengths
+                # in microns) handed to the constructor and kept
+                owned = {}
+                if 'fields_list' in kw:
+                    owned['fields'] = [tuple(f_) for f_ in kw.pop('fields_list')]
+                    kw['fields'] = owned['fields']
+                if 'wl_list' in kw:
+                    owned['wavelengths'] = [wl_of(lens, i)
+                                            for i in kw.pop('wl_list')]
+                    kw['wavelengths'] = owned['wavelengths']
+                before_owned = {k_: list(v_) for k_, v_ in owned.items()}
                 if not isinstance(kw.get('dist', 'x'), str):
                     dobj = mk_dist(kw['dist'])     # the caller's own object
                     keep = (dobj.x.copy(), dobj.y.copy())
@@ -355,6 +371,9 @@ def do_step(lens, slots, st):
                             np.array_equal(keep[0], dobj.x) and
                             np.array_equal(keep[1], dobj.y)):
                         mutated.append('distribution')
+                    for k_, v_ in owned.items():
+                        if list(v_) != before_owned[k_]:
+                            mutated.append(k_)
                 slots[st['slot']] = o
                 obs['obj'] = snap_obj(o)
             elif c == 'method':
@@ -363,6 +382,20 @@ def do_step(lens, slots, st):
                     return {'skipped': 'no object'}
                 obs['ret'] = canon(getattr(o, st['name'])(), squeeze1=False)
                 obs['obj'] = snap_obj(o)
+            elif c == 'view':
+                import matplotlib.pyplot as plt
+                o = slots.get(st['slot'])
+                if o is None or isinstance(o, dict):
+                    return {'skipped': 'no object'}
+                before = snap_obj(o)
+                try:
+                    o.view(**st.get('kw', {}))
+                finally:
+                    plt.close('all')
+                after = snap_obj(o)
+                ok_, where_ = same(after, before)
+                if not ok_:
+                    obs['view_changed'] = where_
             elif c == 'operand':
                 from optiland.optimization.operand import operand_registry
                 fn = operand_registry.get(st['type'])
@@ -465,11 +498,31 @@ def gen_client(ch, kind, meta):
         elif cls in ('Distortion', 'GridDistortion'):
             kw = {'type': ch.pick(['f-tan', 'f-theta']),
                   'n': ch.randint(2, 5)}
+        if cls in ('SpotDiagram', 'RayFan', 'PupilAberration', 'OPDFan',
+                   'Wavefront') and ch.chance(0.35):
+            # explicit, caller-owned field / wavelength lists (possibly
+            # without the primary wavelength)
+            kw['fields_list'] = [[0.0, h_] for h_ in ch.subset(
+                [0.0, 0.7, 1.0], 0.6, at_least=1)]
+            kw['wl_list'] = ch.subset([0, 1, 2], 0.6, at_least=1)
         steps.append({'c': 'new', 'cls': cls, 'slot': 'o', 'kw': kw})
         meths = ch.shuffle(METHODS.get(cls, []))[:ch.randint(0, 3)]
+        if ch.chance(0.3):
+            # look at the result between the queries (Agg backend)
+            vkw = {}
+            if cls in ('OPD', 'ZernikeOPD'):
+                vkw = {'projection': ch.pick(['2d', '3d']),
+                       'num_points': ch.pick([16, 32])}
+            elif cls == 'FFTPSF':
+                vkw = {'projection': ch.pick(['2d', '3d']),
+                       'log': ch.chance(0.5)}
+            meths = meths[:1] + [('view', vkw)] + meths[1:]
         for name in meths:
-            steps.append({'c': 'method', 'slot': 'o', 'name': name})
-        if meths and ch.chance(0.6):
+            if isinstance(name, tuple):
+                steps.append({'c': 'view', 'slot': 'o', 'kw': name[1]})
+            else:
+                steps.append({'c': 'method', 'slot': 'o', 'name': name})
+        if any(s_['c'] == 'method' for s_ in steps) and ch.chance(0.6):
             # the same query again on the same object, after the others:
             # "the same analysis call repeated returns identical results"
             first = next(s_ for s_ in steps if s_['c'] == 'method')
@@ -729,6 +782,15 @@ def execute(prop, hist):
             if obs.get('rays') and not _all_finite(obs['rays']['y']):
                 stats['faults']['ray_failure'] = \
                     stats['faults'].get('ray_failure', 0) + 1
+            if obs.get('view_changed'):
+                # Observation, not a verdict: RayFan.view and OPDFan.view of
+                # the pinned tree mask vignetted samples of their *stored*
+                # data with NaN in place.  The statement speaks of calls
+                # (their results, the caller's arguments, the lens), and the
+                # calls around a view() are compared; attributes are not
+                # calls, so this is only counted.
+                probe('view_changed_stored_attributes:' +
+                      type(slots[ci].get(st['slot'])).__name__)
             # (3) caller-owned arguments untouched
             stats['oracle_checks'] += 1
             if obs.get('mutated'):
